@@ -104,6 +104,10 @@ impl Template {
     fn boxed(&self) -> Box<dyn Collector> {
         Box::new(Multi { inner: self.inner.clone() })
     }
+    /// the same collector described again from scratch (fresh label maps, fresh hash states)
+    fn rebuilt(&self) -> Template {
+        Template::new(self.parts.clone())
+    }
     fn keys(&self) -> Vec<Key> {
         self.parts.iter().map(|p| p.key()).collect()
     }
@@ -133,11 +137,14 @@ impl Template {
 fn gen_part(rng: &mut Rng) -> Part1 {
     let name = rng.pick(&["n1", "n2", "n3"]).to_string();
     let help = format!("help {} {}", name, rng.below(2));
-    let consts = match rng.below(5) {
+    let consts = match rng.below(7) {
         0 => vec![],
         1 => vec![("a".to_string(), "1".to_string())],
         2 => vec![("a".to_string(), "2".to_string())],
         3 => vec![("a".to_string(), "1".to_string()), ("b".to_string(), "1".to_string())],
+        // same values attached to the two names the other way round: different descriptors
+        4 => vec![("a".to_string(), "1".to_string()), ("b".to_string(), "2".to_string())],
+        5 => vec![("b".to_string(), "1".to_string()), ("a".to_string(), "2".to_string())],
         _ => vec![("b".to_string(), "1".to_string())],
     };
     // one metric type per name: mixed kinds under one name are C14's subject, not C06's
@@ -259,7 +266,9 @@ pub fn run_case(cx: &mut Ctx) {
     let detail = |log: &Vec<Json>, templates: &Vec<Template>| jobj! {"templates" => templates.iter().map(|t| t.describe()).collect::<Vec<_>>(), "history" => Json::Arr(log.clone())};
     for _ in 0..nops {
         let ti = rng.usize_below(templates.len());
-        let t = templates[ti].clone();
+        // one call in four describes the collector again from scratch: equality of descriptors is
+        // structural, it must not depend on which map instance produced them
+        let t = if rng.chance(1, 4) { templates[ti].rebuilt() } else { templates[ti].clone() };
         cx.part.evaluations += 1;
         match rng.below(10) {
             0..=5 => {
